@@ -1,8 +1,8 @@
 #!/bin/bash
-# tools/confirm_mutant.sh <dir with patch.diff demo.rs> : in the scratch worktree /tmp/mut_confirm (never /repo) checks that
+# tools/confirm_mutant.sh <dir with patch.diff demo.rs> : in the scratch worktree $CONFIRM_DIR (default /tmp/mut_confirm) (never /repo) checks that
 # (1) the patch applies and compiles, (2) the repository's own test suite still passes with it, (3) demo.rs fails with it and
 # (4) passes without it. Appends a "confirmed" object to <dir>/meta.json. Exit 0 iff all four hold.
-D=$(readlink -f "$1"); S=/tmp/mut_confirm
+D=$(readlink -f "$1"); S=${CONFIRM_DIR:-/tmp/mut_confirm}
 HEAD=$(git -C /repo rev-parse HEAD)
 [ -d $S ] || git -C /repo worktree add -q --detach $S $HEAD || exit 2
 git -C $S checkout -q --detach $HEAD && git -C $S checkout -q -- . && git -C $S clean -fdq -e target
